@@ -100,29 +100,33 @@ Fixpoint take_digits (s : bytes) : bytes * bytes :=
   | [] => ([], [])
   end.
 (* number grammar: optional minus, integer part without leading zeros, optional fraction, optional exponent *)
+Definition p_sign (s : bytes) : bytes * bytes :=
+  match s with b :: r => if Byte.eqb b x2d then ([b], r) else ([], s) | [] => ([], s) end.
+Definition p_frac (s2 : bytes) : bytes * bytes :=
+  match s2 with
+  | b :: r => if Byte.eqb b x2e then let '(d, r') := take_digits r in (b :: d, r') else ([], s2)
+  | [] => ([], s2)
+  end.
+Definition p_exp (s3 : bytes) : option (bytes * bool) * bytes :=
+  match s3 with
+  | b :: r =>
+      if Byte.eqb b x65 || Byte.eqb b x45 then
+        let '(sg, r1) := match r with b' :: r'' => if Byte.eqb b' x2b || Byte.eqb b' x2d then ([b'], r'') else ([], r) | [] => ([], r) end in
+        let '(d, r2) := take_digits r1 in
+        (Some (b :: sg ++ d, is_nil d), r2)
+      else (None, s3)
+  | [] => (None, s3)
+  end.
 Definition p_number (s : bytes) : option (bytes * bytes) :=
-  let '(sign, s1) := match s with b :: r => if Byte.eqb b x2d then ([b], r) else ([], s) | [] => ([], s) end in
+  let '(sign, s1) := p_sign s in
   let '(ip, s2) := take_digits s1 in
   match ip with
   | [] => None
-  | d0 :: dr =>
-      if Byte.eqb d0 x30 && negb (is_nil dr) then None else
-      let '(fp, s3) :=
-        match s2 with
-        | b :: r => if Byte.eqb b x2e then let '(d, r') := take_digits r in (b :: d, r') else ([], s2)
-        | [] => ([], s2)
-        end in
+  | dh :: dr =>
+      if Byte.eqb dh x30 && negb (is_nil dr) then None else
+      let '(fp, s3) := p_frac s2 in
       if (match fp with [_] => true | _ => false end) then None else
-      let '(ep, s4) :=
-        match s3 with
-        | b :: r =>
-            if Byte.eqb b x65 || Byte.eqb b x45 then
-              let '(sg, r1) := match r with b' :: r'' => if Byte.eqb b' x2b || Byte.eqb b' x2d then ([b'], r'') else ([], r) | [] => ([], r) end in
-              let '(d, r2) := take_digits r1 in
-              (Some (b :: sg ++ d, is_nil d), r2)
-            else (None, s3)
-        | [] => (None, s3)
-        end in
+      let '(ep, s4) := p_exp s3 in
       match ep with
       | Some (_, true) => None
       | Some (e, false) => Some (sign ++ ip ++ fp ++ e, s4)
